@@ -57,8 +57,8 @@ CHECKS = {
         technique="Lean 4 proof (eraseRanks sublist/filter lemmas, loop invariant of minimize, generic closed-predicate invariant over the pair-strategy pass loop) + exhaustive-layout differential execution",
         ref="§4 C04"),
     "C09": dict(
-        text="Theorems C09_bound_minimize and C09_bound_pairs: against EVERY oracle (index- and content-dependent: adversarial, inconsistent, always-yes), every min, max >= 1, repeat mode, time limit and clock, the models of minimize, minimize-around and minimize-balanced terminate without exhausting their fuel (outer loop and every pass), flag no internal error (incl. the `assert` of the balanced pass: invariant count(S,0,lhs)*chunk = chunk_start) and run at most (n+1)*(n+ceil(log2 n)+2) tests (+1 initial check). minimize: potential function (len + log2(chunk) + removed)*(n+1) + chunk_end; pairs: every pass moves a chunk index strictly forward (<= num_chunks tests), every accepted proposal strictly shortens the testcase, so at most n + log2(chunk0) + 1 passes. Theorem C09_collapse_terminates: minimize-collapse-brace with ANY of the five splitters as re-loader (symbol: any delimiter sets) terminates against every oracle, flags no internal error and runs at most 2(C+1)(C+log2(C+1)+2)+2 tests, C = bytes of the file (measure: byte length of the best file; collapsing never adds a byte; never more atoms than bytes; the re-loaders partition their input into non-empty atoms by the C06 theorems). C09_collapse_regrows_counterexample: the stated bound in the number of ATOMS is false for that strategy (3 atoms, 49 tests, bound 29: the re-load of the collapsed text has 9 atoms) — recorded finding, reproduced on the real code on every run. The two rewriting strategies: monitor only. Correspondence and monitor: 4 removal + 2 rewriting strategies under adversarial scripts, complete verdict trees n <= 4, hill climbing, every splitter and custom symbol cut sets through the brace collapse, deletions that form a marker word; watchdog for loops that spin without starting a test.",
-        note=NOTE + "collapse-brace: termination/no-error/byte bound are theorems, the atom-count bound of the property is FALSE for it (recorded finding collapse-regrows-atoms, model counterexample theorem + replay on the real code). Rewriting strategies: bound checked by the monitor only; replace-arguments-by-globals non-termination is a recorded finding; the collapse re-load raising LithiumError was a genuine defect (fixed: e840551).",
+        text="Theorems C09_bound_minimize and C09_bound_pairs: against EVERY oracle (index- and content-dependent: adversarial, inconsistent, always-yes), every min, max >= 1, repeat mode, time limit and clock, the models of minimize, minimize-around and minimize-balanced terminate without exhausting their fuel (outer loop and every pass), flag no internal error (incl. the `assert` of the balanced pass: invariant count(S,0,lhs)*chunk = chunk_start) and run at most (n+1)*(n+ceil(log2 n)+2) tests (+1 initial check). minimize: potential function (len + log2(chunk) + removed)*(n+1) + chunk_end; pairs: every pass moves a chunk index strictly forward (<= num_chunks tests), every accepted proposal strictly shortens the testcase, so at most n + log2(chunk0) + 1 passes. Theorem C09_collapse_terminates: minimize-collapse-brace with ANY of the five splitters as re-loader (symbol: any delimiter sets) terminates against every oracle, flags no internal error and runs at most 2(C+1)(C+log2(C+1)+2)+2 tests, C = bytes of the file (measure: byte length of the best file; collapsing never adds a byte; never more atoms than bytes; the re-loaders partition their input into non-empty atoms by the C06 theorems). C09_collapse_regrows_counterexample: the stated bound in the number of ATOMS is false for that strategy (3 atoms, 49 tests, bound 29: the re-load of the collapsed text has 9 atoms) — recorded finding, reproduced on the real code on every run. The two rewriting strategies: C09_rewrite_skeleton — their round skeleton (rwLoop: which pass follows which) ends by its break after at most B+log2(chunk)+2 passes and P*(B+log2(chunk)+2) tests if no pass runs more than P tests and the passes report at most B removed in total; both hypotheses are checked on the numbers the real pass functions report (P = B/2) and the recorded pass lists are replayed through the Lean skeleton; what a pass does to the text (regular expressions) is not modelled, the stated (B+2)^2 is also monitored directly. Correspondence and monitor: 4 removal + 2 rewriting strategies under adversarial scripts, complete verdict trees n <= 4, hill climbing, every splitter and custom symbol cut sets through the brace collapse, deletions that form a marker word; watchdog for loops that spin without starting a test.",
+        note=NOTE + "collapse-brace: termination/no-error/byte bound are theorems, the atom-count bound of the property is FALSE for it (recorded finding collapse-regrows-atoms, model counterexample theorem + replay on the real code). Rewriting strategies: skeleton theorem under monitored hypotheses + the bound monitored directly (the regex code of a pass is not modelled); replace-arguments-by-globals non-termination is a recorded finding; the collapse re-load raising LithiumError was a genuine defect (fixed: e840551).",
         technique="Lean 4 proof (termination measure / potential function; byte-length measure for the brace collapse) + differential execution + adversarial verdict search",
         ref="§4 C09"),
     "C10": dict(
